@@ -143,11 +143,7 @@ def run(repo: Repo, rep: Report, tier: str) -> None:
 
     ins, pred = typestate(cfg, (0, 0), transfer2)
     bad = [s for s in ins.get(cfg.exit.id, ()) if s[0] != 1 or s[1] > 1 or (s[1] == 1 and s[0] != 1)]
-    rep.check(not bad, "one-per-call", fqd, f"exit states {sorted(ins.get(cfg.exit.id, ()))}", "exactly one event (and at most one PDU) per call", mod=dul, node=rd)
-    # event first, then the PDU (same thread, so the action always finds its PDU)
-    evn = [n for n in cfg.nodes if n.kind == "stmt" and norm(n.ast) == "self.event_queue.put(event)"]
-    pun = [n for n in cfg.nodes if n.kind == "stmt" and norm(n.ast) == "self._recv_pdu.put(pdu)"]
-    rep.check(len(evn) == 1 and len(pun) == 1 and cfg.dominates(evn[0], pun[0]), "one-per-call", fqd, "event queued, then its PDU", "the PDU of a decoded event is queued by the same call", mod=dul, node=rd)
+    rep.check(not bad, "one-per-call", fqd, f"exit states {sorted(ins.get(cfg.exit.id, ()))}", "exactly one event per call, and a PDU is queued on _recv_pdu only together with its event (an event-less PDU stays behind and is handed to the next action that expects one)", mod=dul, node=rd)
     # who calls _read_pdu_data: only the reactor's transport step
     n_callers = 0
     for m in repo.modules.values():
